@@ -550,10 +550,46 @@ def r5_sav_keys(ctx, rule, sections=None, floor=10):
                'round-tripping types' % nreads, {'written': sorted('%s.%s' % k for k in written)})
 
 
+def r9_restore_depth(ctx, rule):
+    """The restore walk is recursive; its depth is the number of +1 steps from the root to the frontier."""
+    q = PG + 'restore_prob_order'
+    fn = ctx.fn(q)
+    rec = ctx.fn(PG + '_recursive_restore_prob_order')
+    recursive = any(call_name(c) == 'self._recursive_restore_prob_order' for c in calls_in(rec))
+    if not recursive:
+        ctx.ok(rule, q, 'restore walk is not recursive (no recursion bound to respect)', nontrivial=False)
+        return
+    lims = [c for c in calls_in(fn) if call_name(c) == 'sys.setrecursionlimit']
+    stores = stores_in(fn)
+    vals = []
+    for c in lims:
+        a = expand(fn, c.args[0], stores) if c.args else None
+        v = None
+        if a is not None:
+            cc = const(a)
+            if isinstance(cc, int):
+                v = cc
+            elif isinstance(a, ast.BinOp) and isinstance(a.op, ast.Pow) and isinstance(const(a.left), int) and isinstance(const(a.right), int):
+                v = const(a.left) ** const(a.right)
+        vals.append(v)
+    facts = {'recursion_limits': vals}
+    if not lims or any(v is None for v in vals):
+        ctx.unk(rule, q, 'recursion limit for the restore walk not found / not constant', facts)
+    elif min(vals) < 10 ** 6:
+        ctx.bad(rule, q, 'recursion limit %s for the restore walk' % min(vals),
+                'the recursive restore descends one frame per index increment on the way to the frontier; a long session '
+                'has frontier nodes thousands of increments deep, the walk then hits RecursionError, restore_prob_order '
+                'returns False and the caller continues with a partly restored queue: sub-trees are silently lost', facts, lims[0])
+    else:
+        ctx.ok(rule, q, 'recursion limit for the restore walk is %s' % min(vals), facts)
+    from . import c02
+    c02.push_unconditional(ctx, rule)
+
+
 def rules(tier):
     return [('C08.R1', r1_uuid_gate), ('C08.R2', r2_region_agreement), ('C08.R3', r3_canonical_descent),
             ('C08.R4', r4_saved_position), ('C08.R5', r5_sav_keys), ('C08.R6', c01.r5_successor),
-            ('C08.R7', c01.r4_prob_pt_coupling), ('C08.R8', c01.r1_heap_order)]
+            ('C08.R7', c01.r4_prob_pt_coupling), ('C08.R8', c01.r1_heap_order), ('C08.R9', r9_restore_depth)]
 
 
 META = {
